@@ -116,8 +116,12 @@ static std::string hexs(const uint8_t* p, size_t n) { std::ostringstream os; hex
 static std::string abbreviated(const uint8_t* p, size_t n) { return n <= 24 ? hexs(p, n) : hexs(p, 16) + "..(" + std::to_string(n) + "B)"; }
 
 // ---- library calls, on exact-size heap copies so that ASan sees any over-read -----------------
-enum Form { F_U8 = 0, F_CHAR = 1 };
-static const char* form_name(int f) { return f == F_U8 ? "u8" : "char"; }
+// F_STRING / F_VSCHAR: the documented generic entry point Compute(container, k0, k1) with a container of plain /
+// signed char (std::string, std::vector<signed char>)
+enum Form { F_U8 = 0, F_CHAR = 1, F_STRING = 2, F_VSCHAR = 3, F_COUNT = 4 };
+static const char* form_name(int f) { static const char* n[] = {"u8", "char", "string", "vschar"}; return n[f]; }
+static int form_by_name(const std::string& s) { for (int f = 0; f < F_COUNT; f++) if (s == form_name(f)) return f; return -1; }
+static bool form_signed(int f) { return f != F_U8; }
 
 __attribute__((noinline)) static uint64_t lib_hash_u8(const uint8_t* p, size_t n, uint64_t k0, uint64_t k1) {
   std::unique_ptr<uint8_t[]> buf(new uint8_t[n]);
@@ -128,6 +132,16 @@ __attribute__((noinline)) static uint64_t lib_hash_char(const uint8_t* p, size_t
   std::unique_ptr<uint8_t[]> buf(new uint8_t[n]);
   if (n) std::memcpy(buf.get(), p, n);
   return nop::SipHash::Compute(nop::BlockReader<char>(reinterpret_cast<const char*>(buf.get()), n), k0, k1);
+}
+
+__attribute__((noinline)) static uint64_t lib_hash_string(const uint8_t* p, size_t n, uint64_t k0, uint64_t k1) {
+  std::string c(reinterpret_cast<const char*>(p), n);
+  return nop::SipHash::Compute(c, k0, k1);
+}
+__attribute__((noinline)) static uint64_t lib_hash_vschar(const uint8_t* p, size_t n, uint64_t k0, uint64_t k1) {
+  std::vector<signed char> c(n);
+  if (n) std::memcpy(c.data(), p, n);
+  return nop::SipHash::Compute(c, k0, k1);
 }
 
 struct Verdict {
@@ -141,16 +155,17 @@ struct Verdict {
 static Verdict check_hash(int form, uint64_t k0, uint64_t k1, const uint8_t* p, size_t n) {
   Verdict v;
   const uint64_t want = ref_siphash24(p, n, k0, k1);
-  const uint64_t got = form == F_U8 ? lib_hash_u8(p, n, k0, k1) : lib_hash_char(p, n, k0, k1);
+  const uint64_t got = form == F_U8 ? lib_hash_u8(p, n, k0, k1) : form == F_CHAR ? lib_hash_char(p, n, k0, k1) : form == F_STRING ? lib_hash_string(p, n, k0, k1) : lib_hash_vschar(p, n, k0, k1);
   if (got == want) return v;
   const bool high = has_high(p, n);
-  v.cls = (form == F_CHAR && high) ? "wrong-hash-high-bytes" : "wrong-hash";
-  v.object = form == F_U8 ? "SipHash::Compute(BlockReader<uint8_t>)" : "SipHash::Compute(BlockReader<char>)";
+  v.cls = (form_signed(form) && high) ? "wrong-hash-high-bytes" : "wrong-hash";
+  static const char* objs[] = {"SipHash::Compute(BlockReader<uint8_t>)", "SipHash::Compute(BlockReader<char>)", "SipHash::Compute(std::string)", "SipHash::Compute(std::vector<signed char>)"};
+  v.object = objs[form];
   char b[400];
   snprintf(b, sizeof b, "%s: nop::SipHash::Compute(BlockReader<%s>(data, %zu), 0x%016" PRIx64 ", 0x%016" PRIx64 ") = 0x%016" PRIx64
            ", standard SipHash-2-4 of the bytes is 0x%016" PRIx64 " (data=%s%s)",
-           v.cls.c_str(), form == F_U8 ? "std::uint8_t" : "char", n, k0, k1, got, want, abbreviated(p, n).c_str(),
-           (form == F_CHAR && high) ? "; contains bytes >= 0x80 read through signed char" : "");
+           v.cls.c_str(), form == F_U8 ? "std::uint8_t" : form == F_CHAR ? "char" : form == F_STRING ? "char> / std::string<" : "signed char> / std::vector<", n, k0, k1, got, want, abbreviated(p, n).c_str(),
+           (form_signed(form) && high) ? "; contains bytes >= 0x80 read through signed char" : "");
   v.message = b;
   return v;
 }
@@ -487,11 +502,11 @@ int main(int argc, char** argv) {
     if (text.rfind("prop=C18 hash ", 0) == 0) {
       std::string fm = field(text, "form"), sk0 = field(text, "k0"), sk1 = field(text, "k1"), sd = field(text, "data");
       uint64_t k0, k1;
-      if ((fm != "u8" && fm != "char") || !parse_hex64(sk0, &k0) || !parse_hex64(sk1, &k1) || sd == "\x01" || sd.size() % 2) { fprintf(stderr, "bad replay file: %s\n", text.c_str()); return 2; }
+      if (form_by_name(fm) < 0 || !parse_hex64(sk0, &k0) || !parse_hex64(sk1, &k1) || sd == "\x01" || sd.size() % 2) { fprintf(stderr, "bad replay file: %s\n", text.c_str()); return 2; }
       for (char c : sd) if (!isxdigit((unsigned char)c)) { fprintf(stderr, "bad hex in replay file\n"); return 2; }
       Bytes d = unhex(sd);
       rep.current_case = text;
-      v = check_hash(fm == "u8" ? F_U8 : F_CHAR, k0, k1, d.data(), d.size());
+      v = check_hash(form_by_name(fm), k0, k1, d.data(), d.size());
     } else {
       std::string c = field(text, "const");
       size_t colon = c.find(':');
@@ -524,13 +539,14 @@ int main(int argc, char** argv) {
   auto account_input = [&](int form, const uint8_t* p, size_t n, uint64_t k0, uint64_t k1) {
     char l[32]; snprintf(l, sizeof l, "len%%8=%zu", n % 8); rep.label(l);
     if (n > 255) rep.label("len>255");
-    if (form == F_CHAR && has_high(p, n)) rep.label("bytes>=0x80-via-char");
+    if (form_signed(form) && has_high(p, n)) rep.label("bytes>=0x80-via-char");
+    if (form >= F_STRING) rep.label("generic-container-entry-point");
     if (form == F_U8 && has_high(p, n)) rep.label("bytes>=0x80-via-uint8_t");
     if (nontrivial_input(p, n)) rep.nontriv(input_hash(p, n, k0, k1) ^ (uint64_t)form);
   };
   // Runs one part-A case in one form; returns false when a NEW failure was recorded.
   auto run_hash = [&](int form, uint64_t k0, uint64_t k1, const uint8_t* p, size_t n) -> bool {
-    if (form == F_CHAR && exclude_high && has_high(p, n)) { rep.exclude("char-high-bytes: char-form input with a byte >= 0x80"); return true; }
+    if (form_signed(form) && exclude_high && has_high(p, n)) { rep.exclude("char-high-bytes: char-form input with a byte >= 0x80"); return true; }
     rep.evaluations++;
     Verdict v = check_hash(form, k0, k1, p, n);
     account_input(form, p, n, k0, k1);
@@ -546,13 +562,13 @@ int main(int argc, char** argv) {
   rep.current_detail = "SipHash::Compute run-time";
   if (first_shard) {
     // boundary set: shortest inputs first, so that the first recorded failure of a class is minimal
-    for (int f = 0; f < 2; f++) { rep.current_case = hash_case_text(f, 0, 0, nullptr, 0); run_hash(f, 0, 0, nullptr, 0); }
-    for (int b = 0; b < 256; b++) { uint8_t d = (uint8_t)((b + 0x80) & 0xff); for (int f = 0; f < 2; f++) { rep.current_case = hash_case_text(f, 0, 0, &d, 1); run_hash(f, 0, 0, &d, 1); } }
+    for (int f = 0; f < F_COUNT; f++) { rep.current_case = hash_case_text(f, 0, 0, nullptr, 0); run_hash(f, 0, 0, nullptr, 0); }
+    for (int b = 0; b < 256; b++) { uint8_t d = (uint8_t)((b + 0x80) & 0xff); for (int f = 0; f < F_COUNT; f++) { rep.current_case = hash_case_text(f, 0, 0, &d, 1); run_hash(f, 0, 0, &d, 1); } }
     for (size_t len = 2; len <= 17; len++)
       for (size_t pos = 0; pos < len; pos++)
         for (uint8_t hb : {(uint8_t)0x80, (uint8_t)0xff, (uint8_t)0x7f}) {
           Bytes d(len, 0); d[pos] = hb;
-          for (int f = 0; f < 2; f++) { rep.current_case = hash_case_text(f, 0, 0, d.data(), len); run_hash(f, 0, 0, d.data(), len); }
+          for (int f = 0; f < F_COUNT; f++) { rep.current_case = hash_case_text(f, 0, 0, d.data(), len); run_hash(f, 0, 0, d.data(), len); }
         }
     rep.label("deterministic-boundary-set");
   }
@@ -560,7 +576,7 @@ int main(int argc, char** argv) {
     if ((int)(len % (size_t)a.nshards) != a.shard) continue;
     Bytes all(len), ascii(len);
     for (size_t i = 0; i < len; i++) { all[i] = (uint8_t)(i * 131 + len * 7 + 3); ascii[i] = (uint8_t)(0x20 + (i * 7 + len) % 95); }
-    for (int f = 0; f < 2; f++) {
+    for (int f = 0; f < F_COUNT; f++) {
       rep.current_case = hash_case_text(f, 0x0706050403020100ull, 0x0f0e0d0c0b0a0908ull, all.data(), len);
       run_hash(f, 0x0706050403020100ull, 0x0f0e0d0c0b0a0908ull, all.data(), len);
       rep.current_case = hash_case_text(f, kTableK0, kTableK1, ascii.data(), len);
@@ -634,8 +650,8 @@ int main(int argc, char** argv) {
     if ((int)(len % (size_t)a.nshards) != a.shard) continue;
     TapeRun r = rc_tapes(a.seed * 1000003ull + len, per_len, 100, 1.0, [&](const std::vector<uint64_t>& tape) {
       HashCase c = decode_case(tape, len);
-      for (int f = 0; f < 2; f++) {
-        if (f == F_CHAR && exclude_high && has_high(c.data.data(), len)) { rep.exclude("char-high-bytes: char-form input with a byte >= 0x80"); continue; }
+      for (int f = 0; f < F_COUNT; f++) {
+        if (form_signed(f) && exclude_high && has_high(c.data.data(), len)) { rep.exclude("char-high-bytes: char-form input with a byte >= 0x80"); continue; }
         rep.current_case = hash_case_text(f, c.k0, c.k1, c.data.data(), len);
         rep.evaluations++;
         Verdict v = check_hash(f, c.k0, c.k1, c.data.data(), len);
@@ -651,8 +667,8 @@ int main(int argc, char** argv) {
     if (!r.ok) {
       if (r.message.rfind("HARNESS:", 0) == 0) { fprintf(stderr, "%s\n", r.message.c_str()); rep.notes["harness-error"] = r.message; rep.write("harness-error"); return 2; }
       HashCase c = decode_case(r.tape, len);
-      for (int f = 0; f < 2; f++) {
-        if (f == F_CHAR && exclude_high && has_high(c.data.data(), len)) continue;
+      for (int f = 0; f < F_COUNT; f++) {
+        if (form_signed(f) && exclude_high && has_high(c.data.data(), len)) continue;
         Verdict v = check_hash(f, c.k0, c.k1, c.data.data(), len);
         if (!v.ok() && !key_failed(v.object, v.cls)) record(v, hash_case_text(f, c.k0, c.k1, c.data.data(), len));
       }
